@@ -64,6 +64,32 @@ def run(ctx):
     def bits_of(v, b):
         return [(v >> (b - 1 - i)) & 1 for i in range(b)]
 
+    def dtype_variants(key, name, cfg, mod, x, rep):
+        """the same bits held in the dtypes a caller may hold them in give the same symbols (or are rejected)"""
+        def fresh():
+            if hasattr(mod, "reset_state"):
+                mod.reset_state()
+        fresh()
+        ref = mod(x)
+        for dt in (torch.uint8, torch.int8, torch.int32, torch.int64, torch.bool, torch.float64):
+            xin = x.to(dt)
+            x0 = xin.clone()
+            fresh()
+            try:
+                yv = mod(xin)
+            except Exception:
+                ctx.count("dtypes-rejected")
+                continue
+            ctx.count("dtype-variants")
+            if not torch.equal(xin, x0):
+                ctx.violation(key % "dtype/input-modified", "%s(%s) modifies its %s bit tensor" % (name, cfg, str(dt).split(".")[1]), dict(rep, dtype=str(dt)))
+                return
+            if tuple(yv.shape) != tuple(ref.shape) or not torch.allclose(yv.to(torch.complex128), ref.to(torch.complex128), rtol=1e-5, atol=1e-6):
+                ctx.violation(key % "dtype", "%s(%s): bits %s held as %s give symbols %s, as float32 they give %s" % (
+                    name, cfg, [int(v) for v in x.reshape(-1).tolist()][:12], str(dt).split(".")[1], [complex(v) for v in yv.reshape(-1).tolist()][:4], [complex(v) for v in ref.reshape(-1).tolist()][:4]), dict(rep, dtype=str(dt)))
+                return
+        fresh()
+
     # ------------------------------------------------------------------ memoryless schemes
     for name, cfg, mkm, mkd, b in memoryless(M, quick):
         mod, dem = mkm(), mkd()
@@ -105,6 +131,7 @@ def run(ctx):
                 ctx.violation(key % "roundtrip-batched", "%s(%s): batched bits of shape %s -> symbols %s -> bits %s differ" % (name, cfg, tuple(xb.shape), tuple(yb.shape), tuple(rb.shape)), rep)
         except Exception as ex:
             ctx.violation(key % "raises-batched", "%s(%s): batched input raised %s" % (name, cfg, str(ex)[:100]), rep)
+        dtype_variants(key, name, cfg, mod, xb, rep)
         # T: table checks and model decisions
         c = mod.constellation
         pts = [(Fraction(float(z.real)), Fraction(float(z.imag))) for z in c]
@@ -219,6 +246,7 @@ def run(ctx):
                 break
             cases.append(list(zip(I, Q)))
             outs.append(r)
+        dtype_variants(key, "OQPSK", "normalize=%s" % nz, mod, torch.tensor([[0, 0, 1, 0, 1, 1, 0, 1, 1, 0]], dtype=torch.float32), rep)
         exprs.append("map (fun ps => oqpsk_demod (oqpsk_mod None ps)) %s" % clist([clist(["(%s, %s)" % (cbool(a), cbool(q)) for a, q in c]) for c in cases[:120]]))
         meta.append(("oqpsk", nz, outs[:120]))
         # batched and higher-dimensional inputs: every row is its own stream
